@@ -225,6 +225,10 @@ def fe_relevant(pid, diff):
     if pid in ('C18', 'C14'):
         return True     # these consume the whole front end
     parts = diff.get('fe_parts') or ['<missing>']
+    if diff.get('stream') == 'mut' and set(parts) <= {'PARSE', 'VALIDATE', 'EXPAND'}:
+        # model and implementation disagree on the verdict / diagnostic of an ill-formed definition
+        return pid == 'C13'
+
     for part in parts:
         if part in EVERYTHING_FE or part not in FE_PARTS:
             return True
